@@ -2993,6 +2993,21 @@ def bin_op_items(repo):
     return out
 
 
+def bit_op_items(repo):
+    """the limb loop of `impl_bit_op!` (src/bits.rs: `$trait_assign<&Uint>`, which the other five shapes forward to), instantiated
+    for `| & ^`; `u64::bitor_assign(&mut x, y)` etc. are written `x |= y` (a declared substitution)"""
+    f = repo + '/src/bits.rs'
+    out = []
+    for tr, fn, sym in (('BitOr', 'bitor', '|'), ('BitAnd', 'bitand', '&'), ('BitXor', 'bitxor', '^')):
+        present = ('impl_bit_op!(%s, %s, %sAssign, %s_assign);' % (tr, fn, tr, fn)) in open(f).read()
+        out.append({'file': f if present else f + '.missing-invocation', 'fn': '$fn_assign', 'lean': 'uint_%s_assign' % fn,
+                    'key': 'Uint::%s_assign' % fn, 'self_ty': 'uint', 'uint': True, 'group': 'bitops', 'externs': UINT_EXTERNS,
+                    'after': 'impl<const BITS: usize, const LIMBS: usize> $trait_assign<&Uint<BITS, LIMBS>>\n            for Uint<BITS, LIMBS>\n        {\n            #[inline]',
+                    'subst_after': {'u64::$fn_assign(&mut self.limbs[i], rhs.limbs[i])': 'self.limbs[i] %s= rhs.limbs[i]' % sym,
+                                    '$fn_assign': fn + '_assign'}})
+    return out
+
+
 def radix_items(repo):
     """src/base_convert.rs: digit-sequence conversions (limb mode; errors are (variant index, fields))"""
     f = repo + '/src/base_convert.rs'
@@ -3020,6 +3035,7 @@ GROUPS = [('core', 'Words', ('Ruint.Gen.Prelude',)),
           ('fls', 'WordsFls', ('Ruint.Gen.WordsUintMod',)),
           ('shiftops', 'WordsShiftOps', ('Ruint.Gen.WordsUint',)),
           ('binops', 'WordsBinOps', ('Ruint.Gen.WordsUintDiv',)),
+          ('bitops', 'WordsBitOps', ('Ruint.Gen.WordsUint',)),
           ('value', 'WordsValue', ('Ruint.Gen.Prelude', 'Ruint.Model.Modular')),
           ('gcdv', 'WordsGcd', ('Ruint.Gen.Prelude', 'Ruint.Model.Gcd'))]
 
@@ -3043,6 +3059,7 @@ def translate_all(repo):
     items += fls_items(repo)
     items += shift_op_items(repo)
     items += bin_op_items(repo)
+    items += bit_op_items(repo)
     items += value_items(repo)
     items += gcd_value_items(repo)
     try:
